@@ -153,5 +153,5 @@ def cases(draw, name, nmax):
 
 def units(tier):
     nmax = 10 if tier == "quick" else 18
-    return [Unit(name, check, strategy=(lambda nm=name: cases(nm, nmax)), examples=(1600, 8000), shards=(4, 16))
+    return [Unit(name, check, strategy=(lambda nm=name: cases(nm, nmax)), examples=(1600, 32000), shards=(4, 16))
             for name in ("randmio_und_signed", "randmio_dir_signed", "null_model_und_sign", "null_model_dir_sign")]
